@@ -37,6 +37,8 @@ pub fn runner(spec: SpecId) -> Runner {
     Evm::builder().with_db(to_cachedb(&c.world)).with_external_context(Mon::new(false)).with_env(c.env()).with_spec_id(spec).append_handler_register(monitor_register).build()
 }
 pub struct Obs {
+    /// (journal depth, code section, pc) of every EOF instruction executed
+    pub eof_pcs: Vec<(u64, usize, usize)>,
     pub class: String,
     pub gas_used: u64,
     pub steps: u64,
@@ -62,10 +64,11 @@ pub fn run_on(evm: &mut Runner, spec: SpecId, c: &Case) -> (Obs, Vec<(String, St
         tx.gas_limit = gas_limit;
     }
     evm.context.external = Mon::new(false);
+    evm.context.external.trace_eof_pcs = c.code.starts_with(&[0xef, 0x00]);
     let r = catch(|| evm.transact());
-    let mon = std::mem::take(&mut evm.context.external);
+    let mut mon = std::mem::take(&mut evm.context.external);
     let depth = evm.context.evm.journaled_state.depth();
-    let mut obs = Obs { class: String::new(), gas_used: 0, steps: mon.step_count, frames: mon.attempts.len() as u64 + 1 };
+    let mut obs = Obs { eof_pcs: std::mem::take(&mut mon.eof_pcs), class: String::new(), gas_used: 0, steps: mon.step_count, frames: mon.attempts.len() as u64 + 1 };
     match r {
         Err(p) => {
             obs.class = "panic".into();
